@@ -52,12 +52,35 @@ NESTED_VENDOR = [
 ]
 
 
+# vendor CLAUSES of one dialect builder (FOR UPDATE OF, LIMIT BY, TOP, DISTINCT ON, modifiers) below a statement boundary of
+# every other class: the identifiers inside them follow the outermost statement like everything else
+NESTED_CLAUSES = [
+    ("mysql", "t1 = T('t')\nt2 = T('u')\ns1 = MySQLQuery.from_(t2).select(t2.a).for_update(nowait=True, of=('u', 't'))\n"
+              "q2 = Query.from_(t1).select(t1.a).where(t1.a.isin(s1))", "q2"),
+    ("postgresql", "t1 = T('t')\nt2 = T('u')\ns1 = PostgreSQLQuery.from_(t2).select(t2.a).for_update(skip_locked=True, of=('u',))\n"
+                   "q2 = Query.from_(t1).select(t1.a).where(t1.a.isin(s1))", "q2"),
+    ("postgresql", "t1 = T('t')\nt2 = T('u')\ns1 = PostgreSQLQuery.from_(t2).select(t2.a, t2.b).distinct_on(t2.a, 'b').for_update(of=('u',))\n"
+                   "q2 = Query.from_(s1.as_('sq')).select('a')", "q2"),
+    ("mysql", "t1 = T('t')\nt2 = T('u')\ns1 = MySQLQuery.from_(t2).select(t2.a).modifier('SQL_CALC_FOUND_ROWS').for_update(of=('u',))\n"
+              "sq = s1.as_('sq')\nq2 = Query.from_(t1).join(sq).on(t1.a == sq.a).select(t1.a)", "q2"),
+    ("clickhouse", "t1 = T('t')\nt2 = T('u')\ns1 = ClickHouseQuery.from_(t2).select(t2.a).final().sample(5).limit_by(1, t2.b, 'c').distinct_on(t2.a)\n"
+                   "q2 = Query.from_(t1).select(t1.a).where(t1.a.isin(s1))", "q2"),
+    ("mssql", "t1 = T('t')\nt2 = T('u')\ns1 = MSSQLQuery.from_(t2).select(t2.a).top(3).orderby(t2.b)\n"
+              "q2 = Query.from_(t1).select(t1.a).where(t1.a.isin(s1))", "q2"),
+]
+
+
 def generate(rng, n, tier):
     classes = list(QNAMES)
     for outer in classes:
         for inner in classes:
             for script, var in NESTED_VENDOR:
                 yield {"script": script, "var": var, "outer": outer, "inner": inner, "all_classes": False}
+        for inner, script, var in NESTED_CLAUSES:
+            yield {"script": script, "var": var, "outer": outer, "inner": inner, "all_classes": False}
+        # … and with an explicit quote character given by the caller
+        for inner, script, var in NESTED_CLAUSES[:3]:
+            yield {"script": script + "\n", "var": var, "outer": outer, "inner": inner, "all_classes": False}
     for i in range(n):
         qg = genq.QG(rng, cls="generic", portable=True, inner_same=True, vendor_terms=True, max_depth=2)
         kind = rng.random()
